@@ -47,6 +47,7 @@ type Engine struct {
 	Unsupported []string
 	ObQueries   int
 	Discharged  int
+	leafCache map[*ssa.Function]bool
 	mergeFns    map[string]bool
 	cores       map[int][][]int
 	pool        []*Model
@@ -2012,7 +2013,7 @@ func (e *Engine) invoke(st *State, f *Frame, x *ssa.Call, fn *ssa.Function, args
 	if fn.Blocks == nil {
 		panic(fmt.Sprintf("call to function without body: %s", name))
 	}
-	if e.mergeFns[name] && e.mergeCall(st, f, x, fn, args) {
+	if (e.mergeFns[name] || e.smallPureLeaf(fn, args)) && e.mergeCall(st, f, x, fn, args) {
 		return
 	}
 	if len(st.frames) > 200 {
